@@ -28,7 +28,7 @@ TRUSTED_EXTRA = ["pickle / gzip / tar", "pysam, the read simulator", "argparse /
 ASSUMPTIONS = []
 
 
-def make_sample(r, d, k, two_genes):
+def make_sample(r, d, k, two_genes, sparse_second=False):
     from aldy.common import GRange
     genes = []
     offs = [(10000, 20000), (30000, 40000)]
@@ -49,7 +49,11 @@ def make_sample(r, d, k, two_genes):
             a = r.choice(majors)
             copies.append((a, r.choice(list(g.alleles[a].minors))))
         ref += sim.simulate_reads(g, [("1", "1.001"), ("1", "1.001")], depth=12, name_prefix=f"p{g.name}")
-        smp += sim.simulate_reads(g, copies, depth=[12, 12, 7][:len(copies)], name_prefix=f"s{g.name}", read_len=r.choice([40, 60, 100]))
+        if g.name == "GENB" and sparse_second:
+            # a gene the original run rejects for lack of depth: its dump is in the archive all the same
+            smp += sim.simulate_reads(g, copies[:1], depth=1, name_prefix=f"s{g.name}", read_len=60)
+        else:
+            smp += sim.simulate_reads(g, copies, depth=[12, 12, 7][:len(copies)], name_prefix=f"s{g.name}", read_len=r.choice([40, 60, 100]))
     # pairs sharing a fragment name make multi-site phase records
     ref += sim.neutral_reads(cnr, 24)
     smp += sim.neutral_reads(cnr, 24)
@@ -101,7 +105,7 @@ def tie(ctx):
     try:
         for k in range(10 if quick else 80):
             two = k % 3 == 2
-            genes, cnr, pbam, sbam = make_sample(r, d, k, two)
+            genes, cnr, pbam, sbam = make_sample(r, d, k, two, sparse_second=(k % 6 == 2))
             gap = r.choice(["0", "0", "0.1", "0.3"])
             inp = {"genes": [y for y, _, _ in genes], "seed_index": k, "gap": gap}
             gene_arg = ",".join(p for _, _, p in genes)
